@@ -23,6 +23,8 @@ import (
 	"github.com/go-openapi/runtime/middleware"
 	"github.com/go-openapi/runtime/middleware/untyped"
 	"github.com/go-openapi/runtime/security"
+	"github.com/go-openapi/spec"
+	"github.com/go-openapi/strfmt"
 
 	"verif/engine/apib"
 )
@@ -198,6 +200,12 @@ type env struct {
 	cur   *obs
 	// the outcome the handler returns for the current case
 	outcome string
+	curCase *Case
+	doc     *loads.Document
+	// the same description served through a hand-written RoutableAPI (what generated
+	// servers do): middleware.NewRoutableContext + APIHandler; built on first use
+	rctx *middleware.Context
+	rh   http.Handler
 }
 
 func respKey(codes []string) string { return strings.Join(codes, "+") }
@@ -339,6 +347,7 @@ func buildEnvWith(cfg Config, doc *loads.Document, regs []opReg) *env {
 		}
 	}
 	e.api = api
+	e.doc = doc
 	e.ctx = middleware.NewContext(doc, api, nil)
 	if cfg.NoDocs {
 		e.h = e.ctx.RoutesHandler(nil)
@@ -532,6 +541,7 @@ func (e *env) serve(c *Case) *obs {
 	o := &obs{w: &capWriter{h: http.Header{}}}
 	e.cur = o
 	e.outcome = c.Outcome
+	e.curCase = c
 	path := e.requestPath(c)
 	if path == "" {
 		panic("case names a response set the environment does not have")
@@ -546,10 +556,19 @@ func (e *env) serve(c *Case) *obs {
 				o.panicked = fmt.Sprint(p)
 			}
 		}()
-		if c.Via == "typed" {
-			e.serveTyped(o.w, req, c)
-		} else {
+		switch c.Via {
+		case "typed":
+			e.serveTyped(e.ctx, e.h, o.w, req, c)
+		case "direct":
+			e.serveDirect(o.w, req, c)
+		case "notfound":
+			e.ctx.NotFound(o.w, req)
+		case "routable":
+			e.routable().ServeHTTP(o.w, req)
+		case "untyped":
 			e.h.ServeHTTP(o.w, req)
+		default:
+			panic("unknown entry point " + c.Via)
 		}
 	}()
 	return o
@@ -572,11 +591,11 @@ func (b typedBinder) BindRequest(r *http.Request, _ *middleware.MatchedRoute) er
 
 // serveTyped drives the request the way a generated (typed) operation handler does:
 // RouteInfo, Authorize, BindValidRequest, then Context.Respond with the outcome.
-func (e *env) serveTyped(w http.ResponseWriter, r *http.Request, c *Case) {
-	route, rCtx, ok := e.ctx.RouteInfo(r)
+func (e *env) serveTyped(ctx *middleware.Context, unrouted http.Handler, w http.ResponseWriter, r *http.Request, c *Case) {
+	route, rCtx, ok := ctx.RouteInfo(r)
 	if !ok {
 		// not routed: generated servers answer through the same router middleware
-		e.h.ServeHTTP(w, r)
+		unrouted.ServeHTTP(w, r)
 		return
 	}
 	if rCtx != nil {
@@ -584,25 +603,83 @@ func (e *env) serveTyped(w http.ResponseWriter, r *http.Request, c *Case) {
 	}
 	produces := typedProduces(c.Produces, e.mode.defaultType)
 	if route.HasAuth() {
-		_, aCtx, err := e.ctx.Authorize(r, route)
+		_, aCtx, err := ctx.Authorize(r, route)
 		if err != nil {
-			e.ctx.Respond(w, r, produces, route, err)
+			ctx.Respond(w, r, produces, route, err)
 			return
 		}
 		if aCtx != nil {
 			*r = *aCtx
 		}
 	}
-	if err := e.ctx.BindValidRequest(r, route, typedBinder{e.cur, c.Target == "missing-param"}); err != nil {
-		e.ctx.Respond(w, r, produces, route, err)
+	if err := ctx.BindValidRequest(r, route, typedBinder{e.cur, c.Target == "missing-param"}); err != nil {
+		ctx.Respond(w, r, produces, route, err)
 		return
 	}
 	res, herr := e.handle()
 	if herr != nil {
-		e.ctx.Respond(w, r, produces, route, herr)
+		ctx.Respond(w, r, produces, route, herr)
 		return
 	}
-	e.ctx.Respond(w, r, produces, route, res)
+	ctx.Respond(w, r, produces, route, res)
+}
+
+// serveDirect calls the exported Context.Respond the way custom middleware does: without
+// a matched route (nil, or a MatchedRoute that has no Operation), optionally on a request
+// whose context already carries the format negotiated by Context.ResponseFormat.
+func (e *env) serveDirect(w http.ResponseWriter, r *http.Request, c *Case) {
+	res, herr := e.handle()
+	var route *middleware.MatchedRoute
+	switch {
+	case strings.HasPrefix(c.Direct, "nil-route"):
+	case strings.HasPrefix(c.Direct, "empty-route"):
+		route = &middleware.MatchedRoute{}
+	default:
+		panic("unknown direct variant " + c.Direct)
+	}
+	if strings.HasSuffix(c.Direct, "+cached-format") {
+		_, r = e.ctx.ResponseFormat(r, typedProduces(c.Produces, e.mode.defaultType))
+	}
+	var data interface{} = res
+	if herr != nil {
+		data = herr
+	}
+	e.ctx.Respond(w, r, c.Produces, route, data)
+}
+
+// routableDouble is a RoutableAPI written by hand, as generated servers have one: the
+// registries are those of the untyped API, the operation handlers run the typed call
+// sequence, the error responder is looked up per operation id.
+type routableDouble struct{ e *env }
+
+func (d routableDouble) HandlerFor(_, _ string) (http.Handler, bool) {
+	return http.HandlerFunc(func(w http.ResponseWriter, r *http.Request) {
+		d.e.serveTyped(d.e.rctx, d.e.rh, w, r, d.e.curCase)
+	}), true
+}
+func (d routableDouble) ServeErrorFor(string) func(http.ResponseWriter, *http.Request, error) {
+	return func(rw http.ResponseWriter, r *http.Request, err error) { d.e.api.ServeError(rw, r, err) }
+}
+func (d routableDouble) ConsumersFor(mt []string) map[string]runtime.Consumer {
+	return d.e.api.ConsumersFor(mt)
+}
+func (d routableDouble) ProducersFor(mt []string) map[string]runtime.Producer {
+	return d.e.api.ProducersFor(mt)
+}
+func (d routableDouble) AuthenticatorsFor(s map[string]spec.SecurityScheme) map[string]runtime.Authenticator {
+	return d.e.api.AuthenticatorsFor(s)
+}
+func (d routableDouble) Authorizer() runtime.Authorizer { return d.e.api.Authorizer() }
+func (d routableDouble) Formats() strfmt.Registry       { return d.e.api.Formats() }
+func (d routableDouble) DefaultProduces() string        { return d.e.api.DefaultProduces }
+func (d routableDouble) DefaultConsumes() string        { return d.e.api.DefaultConsumes }
+
+func (e *env) routable() http.Handler {
+	if e.rh == nil {
+		e.rctx = middleware.NewRoutableContext(e.doc, routableDouble{e}, nil)
+		e.rh = e.rctx.APIHandler(nil)
+	}
+	return e.rh
 }
 
 func sortedKeys(m map[string]int64) []string {
